@@ -7,6 +7,8 @@ From Droop Require Import Model.KernelBase Model.Str Model.Arith Gen.FixedKernel
   Model.Prelude Model.State Model.Prims Model.RulesGregory Model.RulesMeek Model.Election.
 From Droop Require Export Model.DriverBase.
 From Droop Require Import Model.DriverParse.
+From Droop Require Export Model.CountCase.
+From Droop Require Import Model.Record Model.DriverRender.
 Import ListNotations.
 Open Scope string_scope.
 Open Scope Z_scope.
@@ -123,63 +125,6 @@ Definition run_values (l : list Z) : string :=
   | _ => "badcase"
   end.
 
-(* ------------------------------------------------------------------ count driver *)
-(* token stream readers *)
-Definition rd_int (l : list tok) : option (Z * list tok) :=
-  match l with TI z :: t => Some (z, t) | _ => None end.
-Definition rd_str (l : list tok) : option (string * list tok) :=
-  match l with TS x :: t => Some (x, t) | _ => None end.
-Fixpoint rd_ints (n : nat) (l : list tok) : option (list Z * list tok) :=
-  match n with
-  | O => Some ([], l)
-  | S k => match rd_int l with
-           | Some (z, t) => match rd_ints k t with Some (zs, t') => Some (z :: zs, t') | None => None end
-           | None => None end
-  end.
-
-Definition rd_cand (l : list tok) : option (pcand * list tok) :=
-  match l with
-  | TI c :: TI o :: TI ti :: TS nm :: TS nk :: TI w :: TI u :: t =>
-    Some (mkPcand c o ti nm nk (negb (w =? 0)) (negb (u =? 0)), t)
-  | _ => None
-  end.
-Fixpoint rd_many {X} (rd : list tok -> option (X * list tok)) (n : nat) (l : list tok) : option (list X * list tok) :=
-  match n with
-  | O => Some ([], l)
-  | S k => match rd l with
-           | Some (x, t) => match rd_many rd k t with Some (xs, t') => Some (x :: xs, t') | None => None end
-           | None => None end
-  end.
-Definition rd_ballot (l : list tok) : option ((Z * list Z) * list tok) :=
-  match l with
-  | TI m :: TI n :: t => match rd_ints (Z.to_nat n) t with Some (r, t') => Some ((m, r), t') | None => None end
-  | _ => None
-  end.
-Definition rd_rank (l : list tok) : option (list Z * list tok) :=
-  match l with
-  | TI n :: t => rd_ints (Z.to_nat n) t
-  | _ => None
-  end.
-Definition rd_eballot (l : list tok) : option ((Z * list (list Z)) * list tok) :=
-  match l with
-  | TI m :: TI n :: t => match rd_many rd_rank (Z.to_nat n) t with Some (r, t') => Some ((m, r), t') | None => None end
-  | _ => None
-  end.
-
-Definition tag_name (t : tag) : string :=
-  match t with
-  | TBegin => "begin" | TCount => "count" | TLog => "log" | TRound => "round" | TTie => "tie" | TElect => "elect"
-  | TDefeat => "defeat" | TIterate => "iterate" | TUnpend => "unpend" | TTransfer => "transfer" | TEnd => "end"
-  end.
-Definition state_name (c : cstate) : string :=
-  match c with Hopeful => "hopeful" | Elected => "elected" | Defeated => "defeated" | Withdrawn => "withdrawn" end.
-Definition is_wigm (m : meth) : bool := match m with MWigm => true | _ => false end.
-Definition code_of (m : meth) (c : cstate) (p : option bool) : string :=
-  match c with
-  | Withdrawn => "W" | Hopeful => "H" | Defeated => "D"
-  | Elected => if is_wigm m && match p with Some true => true | _ => false end then "e" else "E"
-  end.
-Definition lf : string := String (Ascii.ascii_of_nat 10) EmptyString.
 
 Section Show.
 Variable A : arith.
@@ -220,48 +165,18 @@ Definition show_outcome (o : outcome A) : string :=
   end.
 End Show.
 
-Definition rule_of (z : Z) : rule :=
-  match z with
-  | 0 => RWigm | 1 => RWigmPrf | 2 => RScotland | 3 => RCfer | 4 => RMpls | 5 => RMeek | 6 => RMeekPrf | _ => RQpq
-  end.
-Definition meth_of (r : rule) : meth :=
-  match r with RMeek | RMeekPrf => MMeek | RQpq => MQpq | _ => MWigm end.
 
-(* count <rulename> rule arith p g d stale omega10 intquota batchzero batch warren fuelbits nseats nballots
-         ncand {cid order tie name nick w u}* nb {mult n cid*}* neb {mult nr {n cid*}*}* *)
+(* the token readers, tag_name / state_name / code_of / lf, rule_of / meth_of and parse_count_case live in
+   Model.CountCase (shared with DriverRender) *)
 Definition run_count_case (l : list tok) : string :=
-  match l with
-  | TS rname :: TI rl :: TI ar :: TI p :: TI g :: TI d :: TI stale :: TI om :: TI iq :: TI bz :: TI bt :: TI wa ::
-    TI fb :: TI ns :: TI nb :: TI nc :: rest =>
-    match rd_many rd_cand (Z.to_nat nc) rest with
-    | None => "badcands"
-    | Some (cs, rest1) =>
-      match rest1 with
-      | TI nbl :: rest2 =>
-        match rd_many rd_ballot (Z.to_nat nbl) rest2 with
-        | None => "badballots"
-        | Some (bs, rest3) =>
-          match rest3 with
-          | TI nebl :: rest4 =>
-            match rd_many rd_eballot (Z.to_nat nebl) rest4 with
-            | None => "badeballots"
-            | Some (ebs, _) =>
-              let r := rule_of rl in
-              let cfg := mkConfig rname (meth_of r) ns nb (negb (iq =? 0)) (negb (bz =? 0)) (negb (bt =? 0))
-                                  (negb (wa =? 0)) om in
-              let pr := mkProfile ns nb cs bs ebs in
-              let fuel := Pos.pow 2 (Z.to_pos fb) in
-              if ar =? 0 then show_outcome (Fixed p d) (meth_of r) (run_count (Fixed p d) cfg fuel r pr)
-              else if ar =? 1 then show_outcome (Guarded p g d stale) (meth_of r) (run_count (Guarded p g d stale) cfg fuel r pr)
-              else show_outcome (Rational d) (meth_of r) (run_count (Rational d) cfg fuel r pr)
-            end
-          | _ => "badeballots"
-          end
-        end
-      | _ => "badballots"
-      end
-    end
-  | _ => "badcount"
+  match parse_count_case l with
+  | inl e => e
+  | inr c =>
+    let r := cc_rule c in let cfg := cc_cfg c in let fuel := cc_fuel c in let pr := cc_profile c in
+    let p := cc_p c in let g := cc_g c in let d := cc_d c in let stale := cc_stale c in
+    if cc_ar c =? 0 then show_outcome (Fixed p d) (meth_of r) (run_count (Fixed p d) cfg fuel r pr)
+    else if cc_ar c =? 1 then show_outcome (Guarded p g d stale) (meth_of r) (run_count (Guarded p g d stale) cfg fuel r pr)
+    else show_outcome (Rational d) (meth_of r) (run_count (Rational d) cfg fuel r pr)
   end.
 
 (* top level: first token selects the sub-driver *)
@@ -269,6 +184,7 @@ Definition run (l : list tok) : string :=
   match l with
   | TS "values" :: rest => run_values (toks_ints rest)
   | TS "count" :: rest => run_count_case rest
+  | TS "render" :: rest => run_render rest
   | TS "parse" :: rest => run_parse rest
   | _ => "badcommand"
   end.
